@@ -22,7 +22,31 @@ FUNCS = ["cut_gates", "partition_circuit_qubits", "partition_problem", "cut_wire
          "generate_cutting_experiments", "decompose_qpd_instructions", "reconstruct_expectation_values"]
 
 
+# deterministic families, every public function on each of them (so that what is reported does not depend on the seed): a circuit in which
+# every partition-spanning gate is already a placeholder (nothing left to replace), a chain over three partitions with two cuts (joint maps
+# that agree on a partition), payload-carrying gates, a mix of pre-placed and ordinary cut gates, degenerate angles
+_FIXED = [
+    {"nq": 3, "labels": ["A", "B", "B"], "instrs": [{"name": "h", "qubits": [0]}, {"name": "qpd", "gate": "cx", "qubits": [0, 1]},
+                                                      {"name": "cx", "qubits": [1, 2]}, {"name": "ry", "qubits": [2], "params": [0.3]}]},
+    {"nq": 4, "labels": ["A", "A", "B", "B"], "instrs": [{"name": "cx", "qubits": [0, 1]}, {"name": "qpd", "gate": "rzz", "qubits": [1, 2]},
+                                                           {"name": "qpd", "gate": "cz", "qubits": [0, 3]}, {"name": "cx", "qubits": [2, 3]}]},
+    {"nq": 3, "labels": ["A", "B", "C"], "instrs": [{"name": "h", "qubits": [0]}, {"name": "cx", "qubits": [0, 1]}, {"name": "rzz", "qubits": [1, 2]},
+                                                      {"name": "sx", "qubits": [2]}]},
+    {"nq": 4, "labels": ["A", "B", "C", "C"], "instrs": [{"name": "cz", "qubits": [0, 1]}, {"name": "qpd", "gate": "cx", "qubits": [1, 2]},
+                                                           {"name": "cx", "qubits": [2, 3]}, {"name": "h", "qubits": [3]}]},
+    {"nq": 3, "labels": ["A", "B", "B"], "instrs": [{"name": "unitary", "qubits": [0], "params": [11, 1]}, {"name": "unitary2", "qubits": [0, 1]},
+                                                      {"name": "cx", "qubits": [1, 2]}]},
+    {"nq": 3, "labels": ["A", "B", "A"], "instrs": [{"name": "qpd", "gate": "crx", "qubits": [0, 1]}, {"name": "cry", "qubits": [1, 2]},
+                                                      {"name": "rzz_pi", "qubits": [0, 1]}]},
+]
+
+
 def cases(rng, tier):
+    for k, spec in enumerate(_FIXED):
+        for fn in FUNCS:
+            yield ("audit", {"fn": fn, "nq": spec["nq"], "instrs": spec["instrs"], "labels": spec["labels"],
+                             "obs": ["ZXIY"[: spec["nq"]], "IZZX"[: spec["nq"]]], "marker": k % 2 == 0, "meta": k % 3 == 0, "seed": 7 + k,
+                             "always_oracle": True})
     N = 60 if tier == "quick" else 600
     for _ in range(N):
         n = rng.randint(2, 4)
@@ -41,7 +65,7 @@ def cases(rng, tier):
                 # incl. rotations at angles where some map probabilities are tiny but not zero (3.7e-33, 6.1e-17)
                 g = rng.choice(["cx", "rzz", "cz", "unitary2", "ch", "cry", "rzz_pi", "crz_2pi"])
                 instrs.append({"name": g, "qubits": rng.sample(range(n), 2)})
-        labs = [rng.choice("AB") for _ in range(n)]
+        labs = [rng.choice("AB" if n < 3 or rng.random() < 0.6 else "ABC") for _ in range(n)]
         if len(set(labs)) == 1:
             labs[0], labs[-1] = "A", "B"
         obs = ["".join(rng.choice("IXYZ") for _ in range(n)) for _ in range(2)]
@@ -237,7 +261,8 @@ def _confirm_edit(payload, cls):
         audit.mutables(a, ina, keep, "arg%d" % k)
     before = [audit.fp(a) for a in args]
     out = f(*args)
-    audit.mutables(out, oa, keep, "out")
+    oall = {}
+    audit.mutables(out, oa, keep, "out", oall)
     objs = {id(o): o for o in keep}
     if cls.startswith("other:view:"):
         # a returned Pauli list whose arrays are views of the caller's: flip it in place
@@ -250,27 +275,41 @@ def _confirm_edit(payload, cls):
             return [audit.fp(a) for a in args] != before
         except Exception:
             return True
-    for i, p in oa.items():
-        if i in ina and audit.classify(p, ina[i]) == cls:
-            o = objs.get(i)
-            try:
-                if isinstance(o, np.ndarray):
-                    o += 1
-                elif hasattr(o, "coeffs") and hasattr(o, "maps"):
-                    o.coeffs = [c * 2 for c in o.coeffs]
-                elif hasattr(o, "label"):
-                    o.label = "edited-through-result"
-                elif isinstance(o, list):
-                    o.append(None)
-                else:
-                    continue
-            except Exception:
+    hit = audit.shared_classes(ina, oa, oall).get(cls)
+    undo = None
+    for i in (hit[2] if hit is not None else []):
+        o = objs.get(i)
+        try:
+            if isinstance(o, np.ndarray):
+                o += 1
+                undo = lambda o=o: o.__isub__(1)
+            elif hasattr(o, "coeffs") and hasattr(o, "maps"):
+                old = o.coeffs
+                o.coeffs = [c * 2 for c in o.coeffs]
+                undo = lambda o=o, old=old: setattr(o, "coeffs", old)
+            elif hasattr(o, "label"):
+                old = o.label
+                o.label = "edited-through-result"
+                undo = lambda o=o, old=old: setattr(o, "label", old)
+            elif isinstance(o, list):
+                o.append(None)
+                undo = o.pop
+            else:
                 continue
-            break
+        except Exception:
+            continue
+        break
     try:
         return [audit.fp(a) for a in args] != before
     except Exception:
         return True
+    finally:
+        # the edit is withdrawn: a shared object may be module-level state that later cases (and later constructions) would inherit
+        if undo is not None:
+            try:
+                undo()
+            except Exception:
+                pass
 
 
 def oracle(kind, payload):
